@@ -1,6 +1,7 @@
 import WacModel.Proto
 import WacModel.Checker
 import WacModel.Spec.Sub
+import WacModel.Spec.SubRes
 /-
   Driver for C07.  Case kinds:
 
@@ -11,8 +12,15 @@ import WacModel.Spec.Sub
         m checks on ONE shared checker (memo), collections referred to by position.
 
   SPEC first: the Lean specification `sub` on the unfolded trees against the oracle (a mismatch
-  means the specification is wrong) and against the implementation's verdict (for resource-free
-  kinds: a failing input).  Then MODEL: verdict and message of the checker model.
+  means the specification is wrong) and against the implementation's verdict (a failing input) —
+  for resource-free kinds, and for kinds with resources whenever the resource names of the
+  collections of the check are injective (`resourceNamesInjective`; then `sub`, which compares
+  resources by identity, is what the checker must decide: theorem `resource_single_provider`).
+  Then MODEL: verdict and message of the checker model.
+
+  A `pair` answer is `ok`, followed for kinds with resources by a tag field
+  `res-injective` / `res-not-injective` (whether the predicate held; `grep -c` the driver output
+  to count them — the runner ignores fields after `ok`).
 -/
 open Wac Wac.Proto Wac.Spec
 
@@ -23,11 +31,19 @@ def showR : R → String × String
   | .err m => ("0", m)
   | .panic s => ("P", s)
 
-/-- spec verdict for resource-free trees -/
-def specVerdict (at_ : Types) (a : ItemKind) (bt : Types) (b : ItemKind) : Option (Bool × Bool) :=
+/-- spec verdict (resources by identity), whether both trees are resource-free, and whether the
+resource names of the two collections are injective -/
+def specVerdict (at_ : Types) (a : ItemKind) (bt : Types) (b : ItemKind) : Option (Bool × Bool × Bool) :=
   match at_.unfold a, bt.unfold b with
-  | some ta, some tb => some (sub ta tb, ta.resourceFree && tb.resourceFree)
+  | some ta, some tb => some (sub ta tb, ta.resourceFree && tb.resourceFree, resourceNamesInjective at_ bt)
   | _, _ => none
+
+/-- tag of an accepted `pair` case -/
+def resTag (at_ : Types) (a : ItemKind) (bt : Types) (b : ItemKind) : String :=
+  match specVerdict at_ a bt b with
+  | some (_, false, true) => "ok\tres-injective"
+  | some (_, false, false) => "ok\tres-not-injective"
+  | _ => "ok"
 
 def judgeOne (tag : String) (at_ : Types) (a : ItemKind) (bt : Types) (b : ItemKind)
     (impl msg oracle : List Char) (model : R) : Option String :=
@@ -35,13 +51,15 @@ def judgeOne (tag : String) (at_ : Types) (a : ItemKind) (bt : Types) (b : ItemK
   let msg := String.ofList msg
   match specVerdict at_ a bt b with
   | none => some s!"BAD\t{tag}: a kind does not unfold (dangling id or cycle)"
-  | some (s, rf) =>
+  | some (s, rf, inj) =>
     let ss := if s then "1" else "0"
     let orc := String.ofList oracle
     if rf && orc != "-" && orc != ss then
       some s!"SPEC\t{tag}: specification disagrees with the wasmparser oracle: spec={ss} oracle={orc} impl={impl}"
     else if rf && impl != ss then
       some s!"SPEC\t{tag}: is_subtype verdict differs from the subtype relation: spec={ss} impl={impl} msg={msg}"
+    else if inj && impl != ss then
+      some s!"SPEC\t{tag}: is_subtype verdict differs from the subtype relation with resources compared by identity (resource names are injective): spec={ss} impl={impl} msg={msg}"
     else
       let (mv, mm) := showR model
       if mv != impl then some s!"MODEL\t{tag}: verdict model={mv} impl={impl} modelmsg={mm} implmsg={msg}"
@@ -59,7 +77,7 @@ def judgePair (fs : List (List Char)) : String :=
       | some bt =>
         match judgeOne "pair" at_ a bt b impl msg oracle (checkFresh at_ a bt b) with
         | some e => e
-        | none => "ok"
+        | none => resTag at_ a bt b
     | none, _, _ => "BAD\tpair: types A"
     | _, _, _ => "BAD\tpair: kinds"
   | _ => "BAD\tpair: field count"
